@@ -414,7 +414,9 @@ def _final(E, s, args, kw):
     key = "final_locals:" + E.verifying.key
     fr = s.ghost.get(key)
     if fr is None or args[0] not in fr:
-        raise SpecError(f"final({args[0]!r}): no such local at exit")
+        # the contract names a local variable the function no longer has (renamed?): it decides
+        # nothing on this tree
+        raise Unsupported(f"the contract refers to a local variable {args[0]!r} that the function does not have")
     return [(s, fr[args[0]])]
 
 
